@@ -1965,3 +1965,372 @@ async fn params_replay() {
     }
     out.flush().unwrap();
 }
+
+// ------------------------------------------------------------------------------------------------
+// C17 store half: behaviours of spec/ApiStore/ApiStore.tla on the real GrpcService
+// (add_path / delete_path / list_path) with a real TableManager that also holds peer-learned paths.
+//
+// Input (VERIF_IN):  "seq <id>" starts a fresh world; then one op per line:
+//     add <pfx> <pid> <cls> | del <n> | peer+ <pfx> | peer- <pfx>
+// Output (VERIF_OUT): one JSON object per op: the RPC result and the projection of what is stored (table) and what
+// ListPath shows, each path mapped back to the class whose independently built content it equals ("?" if none).
+// ------------------------------------------------------------------------------------------------
+
+fn as_wrap(a: api::attribute::Attr) -> api::Attribute {
+    api::Attribute { attr: Some(a) }
+}
+
+fn as_pfx(p: &str) -> (Family, packet::Nlri, api::Family, api::Nlri) {
+    match p {
+        "p1" => (
+            Family::IPV4,
+            packet::Nlri::V4(bgp::Ipv4Net { addr: Ipv4Addr::new(198, 51, 100, 0), mask: 24 }),
+            api::Family { afi: 1, safi: 1 },
+            api::Nlri { nlri: Some(api::nlri::Nlri::Prefix(api::IpAddressPrefix { prefix: "198.51.100.0".into(), prefix_len: 24 })) },
+        ),
+        "p6" => (
+            Family::IPV6,
+            packet::Nlri::V6(bgp::Ipv6Net { addr: "2001:db8:6::".parse().unwrap(), mask: 48 }),
+            api::Family { afi: 2, safi: 1 },
+            api::Nlri { nlri: Some(api::nlri::Nlri::Prefix(api::IpAddressPrefix { prefix: "2001:db8:6::".into(), prefix_len: 48 })) },
+        ),
+        x => panic!("harness: pfx {x}"),
+    }
+}
+
+fn as_nh_attr(f: Family) -> api::Attribute {
+    if f == Family::IPV4 {
+        as_wrap(api::attribute::Attr::NextHop(api::NextHopAttribute { next_hop: "192.0.2.1".into() }))
+    } else {
+        as_wrap(api::attribute::Attr::MpReach(api::MpReachNlriAttribute {
+            family: Some(api::Family { afi: 2, safi: 1 }),
+            next_hops: vec!["2001:db8::1".into()],
+            nlris: vec![],
+        }))
+    }
+}
+
+fn as_nh_expected(f: Family) -> bgp::Nexthop {
+    if f == Family::IPV4 { bgp::Nexthop::V4(Ipv4Addr::new(192, 0, 2, 1)) } else { bgp::Nexthop::V6("2001:db8::1".parse().unwrap()) }
+}
+
+/// the API attribute list of a class, as a client would send it
+fn as_api_attrs(cls: &str, f: Family) -> Vec<api::Attribute> {
+    use api::attribute::Attr as A;
+    let nh = as_nh_attr(f);
+    match cls {
+        "min" => vec![nh],
+        "full" => vec![
+            as_wrap(A::Origin(api::OriginAttribute { origin: 2 })),
+            as_wrap(A::AsPath(api::AsPathAttribute {
+                segments: vec![api::AsSegment { r#type: 2, numbers: vec![65001, 4_200_000_002] }, api::AsSegment { r#type: 1, numbers: vec![65003] }],
+            })),
+            nh,
+            as_wrap(A::MultiExitDisc(api::MultiExitDiscAttribute { med: 5 })),
+            as_wrap(A::LocalPref(api::LocalPrefAttribute { local_pref: 200 })),
+            as_wrap(A::AtomicAggregate(api::AtomicAggregateAttribute {})),
+            as_wrap(A::Aggregator(api::AggregatorAttribute { asn: 65001, address: "192.0.2.9".into() })),
+            as_wrap(A::Communities(api::CommunitiesAttribute { communities: vec![(65001 << 16) | 1, 0xffff_ff01] })),
+            as_wrap(A::ExtendedCommunities(api::ExtendedCommunitiesAttribute {
+                communities: vec![
+                    api::ExtendedCommunity {
+                        extcom: Some(api::extended_community::Extcom::TwoOctetAsSpecific(api::TwoOctetAsSpecificExtended {
+                            is_transitive: true,
+                            sub_type: 2,
+                            asn: 65001,
+                            local_admin: 100,
+                        })),
+                    },
+                    api::ExtendedCommunity {
+                        extcom: Some(api::extended_community::Extcom::Unknown(api::UnknownExtended { r#type: 0x43, value: vec![0x43, 9, 1, 2, 3, 4, 5, 6] })),
+                    },
+                ],
+            })),
+            as_wrap(A::LargeCommunities(api::LargeCommunitiesAttribute {
+                communities: vec![api::LargeCommunity { global_admin: 4_200_000_001, local_data1: 2, local_data2: 3 }],
+            })),
+            as_wrap(A::Unknown(api::UnknownAttribute { flags: 0xc0, r#type: 200, value: vec![1, 2, 3] })),
+        ],
+        "rr" => vec![
+            as_wrap(A::Origin(api::OriginAttribute { origin: 1 })),
+            nh,
+            as_wrap(A::OriginatorId(api::OriginatorIdAttribute { id: "192.0.2.10".into() })),
+            as_wrap(A::ClusterList(api::ClusterListAttribute { ids: vec!["192.0.2.11".into()] })),
+        ],
+        "badorigin" => vec![as_wrap(A::Origin(api::OriginAttribute { origin: 7 })), nh],
+        "badseg" => vec![as_wrap(A::AsPath(api::AsPathAttribute { segments: vec![api::AsSegment { r#type: 0, numbers: vec![65001] }] })), nh],
+        "longseg" => vec![as_wrap(A::AsPath(api::AsPathAttribute { segments: vec![api::AsSegment { r#type: 2, numbers: (0..256).map(|i| 65001 + i).collect() }] })), nh],
+        "badnh" => vec![as_wrap(A::NextHop(api::NextHopAttribute { next_hop: "not-an-address".into() }))],
+        "valorigin" => vec![as_wrap(A::Unknown(api::UnknownAttribute { flags: 0x40, r#type: 1, value: vec![] })), nh],
+        "oddcomm" => vec![as_wrap(A::Unknown(api::UnknownAttribute { flags: 0xc0, r#type: 8, value: vec![1, 2, 3] })), nh],
+        "badfam" => vec![nh],
+        x => panic!("harness: cls {x}"),
+    }
+}
+
+/// what ListPath must show for a class: the input minus what local_path moves into the path or drops, plus the defaults
+fn as_api_listed(cls: &str, f: Family) -> Vec<api::Attribute> {
+    use api::attribute::Attr as A;
+    if cls == "peer" {
+        return vec![
+            as_wrap(A::Origin(api::OriginAttribute { origin: 0 })),
+            as_wrap(A::AsPath(api::AsPathAttribute { segments: vec![api::AsSegment { r#type: 2, numbers: vec![65002] }] })),
+            as_wrap(A::MultiExitDisc(api::MultiExitDiscAttribute { med: 10 })),
+            as_wrap(A::Communities(api::CommunitiesAttribute { communities: vec![(65002 << 16) | 7] })),
+        ];
+    }
+    let mut v: Vec<api::Attribute> = as_api_attrs(cls, f)
+        .into_iter()
+        .filter(|a| !matches!(a.attr, Some(A::NextHop(_)) | Some(A::MpReach(_)) | Some(A::OriginatorId(_)) | Some(A::ClusterList(_))))
+        .collect();
+    if !v.iter().any(|a| matches!(a.attr, Some(A::Origin(_)))) {
+        v.push(as_wrap(A::Origin(api::OriginAttribute { origin: 0 })));
+    }
+    if !v.iter().any(|a| matches!(a.attr, Some(A::AsPath(_)))) {
+        v.push(as_wrap(A::AsPath(api::AsPathAttribute { segments: vec![] })));
+    }
+    v
+}
+
+/// the attribute list a class must be stored as, built without the conversion code
+fn as_internal(cls: &str) -> Vec<packet::Attribute> {
+    use packet::Attribute as At;
+    let v = |c, x| At::new_with_value(c, x).unwrap();
+    let b = |c, x: Vec<u8>| At::new_with_bin(c, x).unwrap();
+    match cls {
+        "min" => vec![v(At::ORIGIN, 0), At::empty_as_path()],
+        "rr" => vec![v(At::ORIGIN, 1), At::empty_as_path()],
+        "peer" => vec![v(At::ORIGIN, 0), b(At::AS_PATH, vec![2, 1, 0, 0, 0xfd, 0xea]), v(At::MULTI_EXIT_DESC, 10), b(At::COMMUNITY, ((65002u32 << 16) | 7).to_be_bytes().to_vec())],
+        "full" => {
+            let mut asp = vec![2u8, 2];
+            asp.extend_from_slice(&65001u32.to_be_bytes());
+            asp.extend_from_slice(&4_200_000_002u32.to_be_bytes());
+            asp.extend_from_slice(&[1, 1]);
+            asp.extend_from_slice(&65003u32.to_be_bytes());
+            let mut agg = 65001u32.to_be_bytes().to_vec();
+            agg.extend_from_slice(&[192, 0, 2, 9]);
+            let mut comm = ((65001u32 << 16) | 1).to_be_bytes().to_vec();
+            comm.extend_from_slice(&0xffff_ff01u32.to_be_bytes());
+            let ext = vec![0x00, 0x02, 0xfd, 0xe9, 0, 0, 0, 100, 0x43, 9, 1, 2, 3, 4, 5, 6];
+            let mut large = Vec::new();
+            for x in [4_200_000_001u32, 2, 3] {
+                large.extend_from_slice(&x.to_be_bytes());
+            }
+            vec![
+                v(At::ORIGIN, 2),
+                b(At::AS_PATH, asp),
+                v(At::MULTI_EXIT_DESC, 5),
+                v(At::LOCAL_PREF, 200),
+                b(At::ATOMIC_AGGREGATE, vec![]),
+                b(At::AGGREGATOR, agg),
+                b(At::COMMUNITY, comm),
+                b(At::EXTENDED_COMMUNITY, ext),
+                b(At::LARGE_COMMUNITY, large),
+                At::new_opaque(200, 0xc0, vec![1, 2, 3]),
+            ]
+        }
+        _ => vec![],
+    }
+}
+
+const AS_CLASSES: [&str; 4] = ["min", "full", "rr", "peer"];
+
+fn as_same_set<T: PartialEq>(a: &[T], b: &[T]) -> bool {
+    a.len() == b.len() && a.iter().all(|x| a.iter().filter(|y| *y == x).count() == b.iter().filter(|y| *y == x).count())
+}
+
+struct AsWorld {
+    svc: grpc::GrpcService,
+    tables: TableHandle,
+    uuids: Vec<Vec<u8>>,
+    peer: Arc<table::Source>,
+}
+
+impl AsWorld {
+    async fn new() -> Self {
+        let global = mk_global();
+        let tables: TableHandle = Arc::new(TableManager::new(2));
+        let (tx, _rx) = mpsc::unbounded_channel();
+        let svc = grpc::GrpcService::new(Arc::new(tokio::sync::Notify::new()), tx, global, tables.clone());
+        let peer = Arc::new(table::Source::new(
+            IpAddr::V4(Ipv4Addr::new(10, 0, 0, 2)),
+            IpAddr::V4(Ipv4Addr::new(10, 0, 0, 254)),
+            65002,
+            65001,
+            Ipv4Addr::new(10, 0, 0, 2),
+            table::PeerRole::Ebgp,
+        ));
+        AsWorld { svc, tables, uuids: Vec::new(), peer }
+    }
+
+    async fn project(&self) -> String {
+        use api::go_bgp_service_server::GoBgpService;
+        let mut out = String::from("{");
+        for (i, p) in ["p1", "p6"].iter().enumerate() {
+            let (family, net, afam, _) = as_pfx(p);
+            // what ListPath shows
+            let req = api::ListPathRequest { table_type: api::TableType::Global as i32, family: Some(afam), enable_filtered: true, ..Default::default() };
+            let mut shown: Vec<(bool, u32, String)> = Vec::new();
+            match self.svc.list_path(tonic::Request::new(req)).await {
+                Ok(resp) => {
+                    let mut st = resp.into_inner();
+                    while let Some(Ok(r)) = st.next().await {
+                        let Some(d) = r.destination else { continue };
+                        if d.prefix != net.to_string() {
+                            shown.push((false, 0, format!("unexpected-prefix-{}", d.prefix)));
+                            continue;
+                        }
+                        for path in d.paths {
+                            let nlri_ok = path.nlri.as_ref() == Some(&convert::nlri_to_api(&net)) || path.nlri == Some(as_pfx(p).3);
+                            let cls = AS_CLASSES
+                                .iter()
+                                .find(|c| as_same_set(&path.pattrs, &as_api_listed(c, family)))
+                                .map(|c| c.to_string())
+                                .unwrap_or_else(|| "?".to_string());
+                            let is_peer = cls == "peer";
+                            shown.push((!is_peer, path.identifier, if nlri_ok { cls } else { "nlri-differs".into() }));
+                        }
+                    }
+                }
+                Err(e) => shown.push((false, 0, format!("list-error-{}", e.code() as i32))),
+            }
+            // what the table holds
+            let mut held: Vec<(bool, u32, String, String)> = Vec::new();
+            let nh_of: Vec<(usize, Option<bgp::Nexthop>)> = self
+                .tables
+                .collect_loc_rib_paths(family)
+                .into_iter()
+                .filter(|c| c.net == net)
+                .flat_map(|c| c.current_paths.iter().map(|x| (Arc::as_ptr(&x.attr) as usize, x.nexthop)).collect::<Vec<_>>())
+                .collect();
+            for d in self.tables.collect_paths(table::TableQuery::Global, family, vec![], true) {
+                if d.net != net {
+                    continue;
+                }
+                for e in d.paths {
+                    let cls = AS_CLASSES.iter().find(|c| as_same_set(&e.attr, &as_internal(c))).map(|c| c.to_string()).unwrap_or_else(|| "?".to_string());
+                    let nh = nh_of.iter().find(|(ptr, _)| *ptr == Arc::as_ptr(&e.attr) as usize).map(|(_, n)| *n);
+                    let nh_s = match nh {
+                        Some(Some(n)) if e.source.is_local() && n == as_nh_expected(family) => "ok",
+                        Some(Some(_)) if !e.source.is_local() => "ok",
+                        Some(None) => "none",
+                        None => "unlisted",
+                        _ => "wrong",
+                    };
+                    held.push((e.source.is_local(), e.remote_path_id, cls, nh_s.to_string()));
+                }
+            }
+            shown.sort();
+            held.sort();
+            if i > 0 {
+                out.push(',');
+            }
+            let _ = write!(out, "\"{}\":{{\"shown\":[", p);
+            for (j, (l, pid, c)) in shown.iter().enumerate() {
+                let _ = write!(out, "{}{{\"src\":\"{}\",\"pid\":{},\"cls\":\"{}\"}}", if j > 0 { "," } else { "" }, if *l { "local" } else { "peer" }, pid, c);
+            }
+            out.push_str("],\"held\":[");
+            for (j, (l, pid, c, nh)) in held.iter().enumerate() {
+                let _ = write!(
+                    out,
+                    "{}{{\"src\":\"{}\",\"pid\":{},\"cls\":\"{}\",\"nh\":\"{}\"}}",
+                    if j > 0 { "," } else { "" },
+                    if *l { "local" } else { "peer" },
+                    pid,
+                    c,
+                    nh
+                );
+            }
+            out.push_str("]}");
+        }
+        out.push('}');
+        out
+    }
+
+    async fn op(&mut self, t: &[&str]) -> String {
+        use api::go_bgp_service_server::GoBgpService;
+        match t[0] {
+            "add" => {
+                let (family, _net, afam, anlri) = as_pfx(t[1]);
+                let pid: u32 = t[2].parse().unwrap();
+                let afam = if t[3] == "badfam" { if family == Family::IPV4 { api::Family { afi: 2, safi: 1 } } else { api::Family { afi: 1, safi: 1 } } } else { afam };
+                let path = api::Path { nlri: Some(anlri), family: Some(afam), identifier: pid, pattrs: as_api_attrs(t[3], family), ..Default::default() };
+                let req = api::AddPathRequest { table_type: api::TableType::Global as i32, vrf_id: String::new(), path: Some(path) };
+                match self.svc.add_path(tonic::Request::new(req)).await {
+                    Ok(r) => {
+                        self.uuids.push(r.into_inner().uuid);
+                        "ok".into()
+                    }
+                    Err(_) => "rejected".into(),
+                }
+            }
+            "del" => {
+                let n: usize = t[1].parse().unwrap();
+                let uuid = self.uuids.get(n - 1).cloned().unwrap_or_else(|| vec![0xEE; 16]);
+                let req = api::DeletePathRequest { table_type: api::TableType::Global as i32, uuid, ..Default::default() };
+                match self.svc.delete_path(tonic::Request::new(req)).await {
+                    Ok(_) => "ok".into(),
+                    Err(_) => "rejected".into(),
+                }
+            }
+            "peer+" | "peer-" => {
+                let (family, net, _, _) = as_pfx(t[1]);
+                let pn = packet::PathNlri { path_id: 0, nlri: net };
+                if t[0] == "peer+" {
+                    let nh = if family == Family::IPV4 { bgp::Nexthop::V4(Ipv4Addr::new(10, 0, 0, 2)) } else { bgp::Nexthop::V6("2001:db8::2".parse().unwrap()) };
+                    self.tables.insert_route(self.peer.clone(), family, pn, Some(nh), Arc::new(as_internal("peer")), None, 1);
+                } else {
+                    self.tables.remove_route(self.peer.clone(), family, pn, None, 1);
+                }
+                "ok".into()
+            }
+            x => panic!("harness: op {x}"),
+        }
+    }
+}
+
+#[tokio::test]
+async fn apistore_replay() {
+    let inp = std::env::var("VERIF_IN").expect("VERIF_IN");
+    let outp = std::env::var("VERIF_OUT").expect("VERIF_OUT");
+    let mut out = std::io::BufWriter::new(std::fs::File::create(outp).unwrap());
+    let text = std::fs::read_to_string(inp).unwrap();
+    let mut w: Option<AsWorld> = None;
+    let mut dead = false;
+    for line in text.lines() {
+        let t: Vec<&str> = line.split_whitespace().collect();
+        if t.is_empty() {
+            continue;
+        }
+        if t[0] == "seq" {
+            w = Some(AsWorld::new().await);
+            dead = false;
+            writeln!(out, "{{\"seq\":{}}}", t[1]).unwrap();
+            continue;
+        }
+        if dead {
+            writeln!(out, "{{\"res\":\"skipped\",\"rib\":{{}}}}").unwrap();
+            continue;
+        }
+        // a panic inside an RPC (e.g. under a shard lock) is data: report it and give up on this sequence
+        let world = w.take().unwrap();
+        let toks: Vec<String> = t.iter().map(|s| s.to_string()).collect();
+        let h = tokio::spawn(async move {
+            let mut world = world;
+            let tk: Vec<&str> = toks.iter().map(|s| s.as_str()).collect();
+            let res = world.op(&tk).await;
+            let rib = world.project().await;
+            (world, res, rib)
+        });
+        match h.await {
+            Ok((world, res, rib)) => {
+                w = Some(world);
+                writeln!(out, "{{\"res\":\"{}\",\"rib\":{}}}", res, rib).unwrap();
+            }
+            Err(e) => {
+                dead = true;
+                writeln!(out, "{{\"res\":\"panic\",\"note\":\"{}\",\"rib\":{{}}}}", format!("{e}").replace('\\', "/").replace('"', "'").replace('\n', " ")).unwrap();
+            }
+        }
+    }
+}
